@@ -432,12 +432,7 @@ fn c14_try_advance_monotone() {
 // ================================================================================================
 // C15 / C13 — bags, defer, flush, push_bag, collect, finalize: conservation of deferred functions
 // ================================================================================================
-static mut EXEC: [u32; 6] = [0; 6];          // how often closure i ran
-static mut EXEC_ORDER: [u8; 8] = [0; 8];
-static mut EXEC_N: usize = 0;
-fn tagged_deferred(i: u8) -> Deferred {
-    Deferred::new(move || unsafe { EXEC[i as usize] += 1; if EXEC_N < 8 { EXEC_ORDER[EXEC_N] = i; } EXEC_N += 1; })
-}
+use crate::ebr_impl::deferred::verif_deferred::{k_call_tagged, tagged_deferred, EXEC, EXEC_N, EXEC_ORDER};
 unsafe fn bag_with(cap: usize, n: usize, first_tag: u8) -> Bag {
     let mut b = Bag(Vec::with_capacity(cap));
     let mut i = 0;
@@ -497,6 +492,7 @@ l3_harness! {
 /// Global::push_bag: exactly one push of the sealed old content, stamped with the global epoch read
 /// after the bag was taken; the participant's bag is left empty; nothing runs.
 #[kani::stub(Queue::push, Queue::k_push)]
+#[kani::stub(Deferred::call, k_call_tagged)]
 #[kani::unwind(5)]
 fn c13_push_bag() {
     let c: &'static Collector = leak(Collector::new());
@@ -525,7 +521,8 @@ l3_harness! {
 /// order, stopping at the first unexpired bag; each function runs at most once.
 #[kani::stub(Queue::try_pop_if, Queue::k_try_pop_if)]
 #[kani::stub(Global::try_advance, k_try_advance)]
-#[kani::unwind(5)]   // <= 2 bags in the queue: the third pop returns None and the trial loop breaks (unwinding assertion proves it)
+#[kani::stub(Deferred::call, k_call_tagged)]
+#[kani::unwind(4)]   // <= 2 bags (of 1 function each) in the queue: the third pop returns None and the trial loop breaks (unwinding assertions prove it)
 fn c13_collect() {
     let c: &'static Collector = leak(Collector::new());
     let l_store = ManuallyDrop::new(mk_local(c, 2));
@@ -544,7 +541,8 @@ fn c13_collect() {
     Q_PUSHES = 0;
     let guard = ManuallyDrop::new(Guard { local: l });
     c.global.collect(&guard);
-    let dist = |s: usize| crate::ebr_impl::epoch::verif_epoch::ring_dist((g >> 1) as i128, (s >> 1) as i128);
+    // signed distance of the 63-bit epoch values, in 64-bit arithmetic (no wide division for the solver)
+    let dist = |s: usize| { let d = ((g >> 1).wrapping_sub(s >> 1)) & (usize::MAX >> 1); if d >= (1usize << 62) { d as i64 - (1i64 << 62) - (1i64 << 62) } else { d as i64 } };
     let (x0, x1) = (nb >= 1 && dist(s0) >= 3, nb >= 2 && dist(s1) >= 3);
     assert!(ADVANCES == 1, "C13.collect.one_advance_attempt");
     assert!(l.manual_count.get() == 0 && l.pin_count.get() == 0, "C15.collect.resets_collection_counters");
@@ -552,10 +550,9 @@ fn c13_collect() {
     assert!(EXEC[0] == x0 as u32, "C13.collect.first_bag_runs_iff_expired");
     assert!(EXEC[1] == (x0 && x1) as u32, "C13.collect.fifo_stops_at_first_unexpired_bag");
     if EXEC[1] == 1 { assert!(EXEC_ORDER[0] == 0 && EXEC_ORDER[1] == 1, "C15.collect.runs_in_fifo_order"); }
-    assert!(Q_POP_ATTEMPTS <= 16, "C13.collect.bounded_trials");
+    assert!(Q_POP_ATTEMPTS as usize <= Global::COLLECTS_TRIALS, "C13.collect.bounded_trials");
     assert!(Q_PUSHES == 0, "C15.collect.pushes_nothing");
-    kani::cover!(x0 && x1, "cover.collect.both_expired");
-    kani::cover!(nb == 2 && !x0 && x1, "cover.collect.first_recent_blocks_second");
+    kani::cover!(nb == 2 && x0 && x1, "cover.collect.both_expired");   // (one cover only: each costs a full SAT call on this formula)
 }}
 
 l3_harness! {
@@ -564,6 +561,7 @@ l3_harness! {
 #[kani::stub(Global::push_bag, k_push_bag)]
 #[kani::stub(Global::try_advance, k_try_advance)]
 #[kani::stub(Global::collect, k_collect)]
+#[kani::stub(Deferred::call, k_call_tagged)]
 #[kani::unwind(6)]
 fn c15_defer() {
     let c: &'static Collector = leak(Collector::new());
@@ -584,7 +582,7 @@ fn c15_defer() {
     }
     assert!(EXEC_N == 0, "C13.defer.runs_nothing");
     assert!(COLLECTS == 0, "C07.defer.never_collects_reentrantly");   // deferred functions never run on top of the deferring frame
-    assert!(l.advance_count.get() == ac.wrapping_add(1) && ADVANCES == (ac.wrapping_add(1) % 64 == 0) as u32, "C15.defer.periodic_advance_attempt");
+    assert!(l.advance_count.get() == ac.wrapping_add(1) && ADVANCES == (ac.wrapping_add(1) % Local::COUNTS_BETWEEN_ADVANCE == 0) as u32, "C15.defer.periodic_advance_attempt");
     // conservation: run what is in the local bag now: the new function is the last one
     let k = bag.0.len();
     core::ptr::drop_in_place(l.bag.get());
@@ -597,6 +595,7 @@ l3_harness! {
 /// flush / push_to_global / schedule_collection / incr_manual_collection.
 #[kani::stub(Global::push_bag, k_push_bag)]
 #[kani::stub(Global::collect, k_collect)]
+#[kani::stub(Deferred::call, k_call_tagged)]
 #[kani::unwind(6)]
 fn c15_flush() {
     let c: &'static Collector = leak(Collector::new());
@@ -612,7 +611,7 @@ fn c15_flush() {
     let via: u8 = kani::any();
     let mc: usize = kani::any(); l.manual_count.set(mc);
     if via == 0 { l.flush(&guard); } else if via == 1 { guard.flush(); } else { guard.incr_manual_collection(); }
-    let flushed = via <= 1 || mc.wrapping_add(1) % 64 == 0;
+    let flushed = via <= 1 || mc.wrapping_add(1) % MANUAL_EVENTS_BETWEEN_COLLECT == 0;
     if flushed {
         assert!(PUSH_BAGS == (n > 0) as u32 && (n == 0 || PUSHED_LEN[0] == n) && (*l.bag.get()).is_empty(), "C15.flush.moves_local_bag_to_global_queue_iff_nonempty");
         assert!(l.must_collect.get(), "C15.flush.schedules_collection");
@@ -628,12 +627,20 @@ fn c15_flush() {
     kani::cover!(via == 2 && flushed, "cover.flush.by_manual_counter");
 }}
 
-static mut ARC_DROPPED_AFTER_DELETE: bool = false;
+static mut PINS: u32 = 0;
+/// Contract of Local::pin as seen by finalize (proved in c16_pin): one more guard, pinned.
+fn k_pin(l: &Local) -> Guard {
+    unsafe { PINS += 1; l.guard_count.set(l.guard_count.get() + 1); if raw_epoch(&l.epoch) & 1 == 0 { set_raw_epoch(&l.epoch, raw_epoch(&l.collector().global.epoch) | 1); } }
+    Guard { local: l }
+}
 l3_harness! {
 /// finalize (thread exit): the local bag is handed to the global queue, the registry entry is
 /// marked deleted, and exactly one reference to the collector is released - in that order.
 #[kani::stub(Global::push_bag, k_push_bag)]
 #[kani::stub(Global::collect, k_collect)]
+#[kani::stub(Local::pin, k_pin)]
+#[kani::stub(Queue::try_pop, Queue::k_try_pop_empty)]   // teardown of the Global is not reached (another handle keeps it alive, asserted below)
+#[kani::stub(Deferred::call, k_call_tagged)]
 #[kani::unwind(6)]
 fn c15_finalize() {
     let c: &'static Collector = leak(Collector::new());
@@ -648,6 +655,7 @@ fn c15_finalize() {
     let refs_before = std::sync::Arc::strong_count(&c.global);
     GWORD = epoch_word(&c.global.epoch); LWORD = epoch_word(&l.epoch);
     l.finalize();
+    assert!(PINS == 1, "C15.finalize.pins_while_handing_over");
     assert!(PUSH_BAGS == (n > 0) as u32 && (n == 0 || PUSHED_LEN[0] == n), "C15.finalize.hands_local_bag_to_global_queue");
     assert!((*l.bag.get()).is_empty() && EXEC_N == 0, "C15.finalize.loses_and_runs_nothing");
     assert!(crate::ebr_impl::sync::list::verif_list::next_word(&l.entry) & 1 == 1, "C18.finalize.marks_registry_entry_deleted");
